@@ -468,7 +468,12 @@ fn dfs(ctx: &mut Ctx, sys: &mut TimerSys, acts: &[TAct], depth: usize, path: &mu
         path.push(*a);
         ctx.st.cases += 1;
         ctx.st.nontrivial += 1;
-        match sys.apply(a) {
+        let r = sys.apply(a);
+        {
+            let h = ((reg(&sys.cpu, TCNT) as usize) << 8 ^ (reg(&sys.cpu, TCSR) as usize) ^ (reg(&sys.cpu, TCR) as usize) * 257) & 0xffff;
+            ctx.st.outcome_bits[h / 64] |= 1 << (h % 64);
+        }
+        match r {
             Ok(()) => dfs(ctx, sys, acts, depth - 1, path),
             Err(m) => {
                 let p: Vec<String> = path.iter().map(|x| x.text()).collect();
